@@ -8,19 +8,20 @@
 // 4 GiB allocation asked for by a length prefix kills the child instead of the machine).
 //
 // Streams (field "stream" of a case):
-//   tokens    a token list with the prediction of the extracted block parser model: verdict, final
-//             index, tree shape, and the trace of calls the model made to its stand-in for
-//             parseExpression. The real parseOuterTemplate runs on the SAME token list (hook
-//             VerifParseTokens); the real parseExpression is asked for its extent at every traced
-//             call (VerifExprExtent). Where all extents agree the abstraction is exact on this case
-//             and verdict, index and shape must agree, including "index out of range" on lists that
-//             do not end in EOF. On every list that ends in EOF the real parser must not panic,
-//             whatever the extents (the theorem holds for every stand-in). Every real extent is
-//             checked against the assumption bp_expr_spec.
-//   source    a template source: both tokenizers forced (their streams must end in EOF), parse,
-//             render with a standard context, then the engine is used again.
-//   render    a template and the standard context of odd Go value shapes.
-//   compiled  bytes for DeserializeCompiledTemplate / LoadFromCompiledData.
+//
+//	tokens    a token list with the prediction of the extracted block parser model: verdict, final
+//	          index, tree shape, and the trace of calls the model made to its stand-in for
+//	          parseExpression. The real parseOuterTemplate runs on the SAME token list (hook
+//	          VerifParseTokens); the real parseExpression is asked for its extent at every traced
+//	          call (VerifExprExtent). Where all extents agree the abstraction is exact on this case
+//	          and verdict, index and shape must agree, including "index out of range" on lists that
+//	          do not end in EOF. On every list that ends in EOF the real parser must not panic,
+//	          whatever the extents (the theorem holds for every stand-in). Every real extent is
+//	          checked against the assumption bp_expr_spec.
+//	source    a template source: both tokenizers forced (their streams must end in EOF), parse,
+//	          render with a standard context, then the engine is used again.
+//	render    a template and the standard context of odd Go value shapes.
+//	compiled  bytes for DeserializeCompiledTemplate / LoadFromCompiledData.
 package main
 
 import (
@@ -436,7 +437,7 @@ func (t *c05Tail) String() string { t.mu.Lock(); defer t.mu.Unlock(); return str
 
 func c05Start() (*c05Worker, error) {
 	cmd := exec.Command(os.Args[0], "C05", "-", "-")
-	cmd.Env = append(os.Environ(), "VERIF_C05_CHILD=1", "GOTRACEBACK=single")
+	cmd.Env = append(os.Environ(), "VERIF_C05_CHILD=1", "GOTRACEBACK=all")
 	in, err := cmd.StdinPipe()
 	if err != nil {
 		return nil, err
@@ -464,6 +465,22 @@ type c05Done struct {
 	obs    *c05Obs
 	fail   string // timeout | fatal
 	detail string
+}
+
+// c05BusyFrame: in a SIGQUIT dump, the first frame of package twig of a goroutine that is running or runnable
+func c05BusyFrame(dump string) string {
+	for _, blk := range strings.Split(dump, "\n\n") {
+		head := blk
+		if k := strings.Index(blk, "\n"); k > 0 {
+			head = blk[:k]
+		}
+		if strings.HasPrefix(head, "goroutine ") && (strings.Contains(head, "[running") || strings.Contains(head, "[runnable")) {
+			if f := c05Frame(blk); f != "outside-twig" {
+				return f
+			}
+		}
+	}
+	return "unknown"
 }
 
 func c05FatalClass(stderr string) string {
@@ -566,9 +583,19 @@ func c05Pool(cases []Case, handle func(d c05Done)) {
 					}
 					results <- c05Done{c: c, obs: &o}
 				case <-time.After(limit):
-					w.kill()
+					// ask the runtime for the goroutine stacks (SIGQUIT), then kill
+					w.cmd.Process.Signal(syscall.SIGQUIT)
+					exited := make(chan struct{})
+					go func(w *c05Worker) { w.cmd.Wait(); close(exited) }(w)
+					select {
+					case <-exited:
+					case <-time.After(2 * time.Second):
+					}
+					st := w.stderr.String()
+					w.stdin.Close()
+					w.cmd.Process.Kill()
 					w = nil
-					results <- c05Done{c: c, fail: "timeout", detail: fmt.Sprintf("no result within %v", limit)}
+					results <- c05Done{c: c, fail: "timeout:" + c05BusyFrame(st), detail: fmt.Sprintf("no result within %v", limit)}
 				}
 			}
 		}()
@@ -665,9 +692,6 @@ func runC05(casesPath string, res *Result) {
 		res.count(c05Key(c), nontrivial)
 		if d.fail != "" {
 			cls := d.fail
-			if cls == "timeout" {
-				cls = "timeout:" + stream + ":" + tag
-			}
 			res.Hist["fail:"+strings.SplitN(cls, ":", 2)[0]]++
 			addClass(cls, Finding{Kind: "oracle", Where: stream + "/" + tag, Case: c05Small(c), Expected: "a value or an error within the watchdog",
 				Observed: d.fail, Detail: cls + " :: " + d.detail, Known: c05Known(cls)})
